@@ -188,7 +188,8 @@ func solve(o *Obligation, dir string, budgetMs int, portfolioAll bool) *SolveRes
 	defer os.Remove(file)
 	res := &SolveResult{SMTBytes: len(text)}
 	ctx := context.Background()
-	if o.Expect == "unsat" && !portfolioAll && (strings.Contains(text, "(forall ") || strings.Contains(text, "(exists ")) {
+	goalQuantified := strings.Contains(o.Goal, "(forall ") || strings.Contains(o.Goal, "(exists ")
+	if o.Expect == "unsat" && !portfolioAll && !goalQuantified && (strings.Contains(text, "(forall ") || strings.Contains(text, "(exists ")) {
 		qf := o.smtQF()
 		qfFile := file + ".qf.smt2"
 		if err := os.WriteFile(qfFile, []byte(qf), 0o644); err == nil {
@@ -204,6 +205,11 @@ func solve(o *Obligation, dir string, budgetMs int, portfolioAll bool) *SolveRes
 	firstMs := budgetMs
 	if firstMs > 3000 {
 		firstMs = 3000
+	}
+	if goalQuantified && budgetMs >= 6000 {
+		// quantified goals (set inclusions over maps) need instantiation: give the first solver
+		// room before three solvers compete for the cores
+		firstMs = 6000
 	}
 	definitive := func(s string) bool { return s == "sat" || s == "unsat" }
 	if o.Class == "smoke" {
@@ -224,6 +230,9 @@ func solve(o *Obligation, dir string, budgetMs int, portfolioAll bool) *SolveRes
 			return res
 		}
 		res.Status, res.Output = st, out
+		if o.probe {
+			return res
+		}
 	}
 	// race
 	type r struct {
@@ -323,30 +332,90 @@ func hashStr(s string) uint32 {
 	return h
 }
 
-// solveAll runs the obligations through a worker pool.
+// solveAll runs the obligations through a worker pool. Post-conditions of one return point
+// (same assumptions, none of them assumed for the others) are first tried as one conjunction;
+// on anything but `unsat` the group is halved until single obligations remain, which go
+// through the full pipeline.
 func solveAll(obls []*Obligation, workers, budgetMs int, portfolioAll bool) {
 	dir, err := os.MkdirTemp("", "govc-")
 	if err != nil {
 		panic(err)
 	}
 	defer os.RemoveAll(dir)
+	var items [][]*Obligation
+	if portfolioAll || os.Getenv("GOVC_BATCH") == "" {
+		for _, o := range obls {
+			items = append(items, []*Obligation{o})
+		}
+	} else {
+		groups := map[string][]*Obligation{}
+		var order []string
+		for _, o := range obls {
+			k := o.Batch
+			if k == "" || o.Expect != "unsat" || o.vc == nil || o.vc.failed != "" {
+				items = append(items, []*Obligation{o})
+				continue
+			}
+			if _, ok := groups[k]; !ok {
+				order = append(order, k)
+			}
+			groups[k] = append(groups[k], o)
+		}
+		for _, k := range order {
+			g := groups[k]
+			for len(g) > 24 {
+				items = append(items, g[:24])
+				g = g[24:]
+			}
+			items = append(items, g)
+		}
+	}
 	var wg sync.WaitGroup
-	ch := make(chan *Obligation)
+	ch := make(chan []*Obligation)
+	var solveGroup func(g []*Obligation)
+	solveGroup = func(g []*Obligation) {
+		if len(g) == 1 {
+			o := g[0]
+			if o.vc != nil && o.vc.failed != "" {
+				o.Result = &SolveResult{Status: "error", Output: o.vc.failed}
+				return
+			}
+			o.Result = solve(o, dir, budgetMs, portfolioAll)
+			return
+		}
+		var goals []string
+		prefix := 0
+		for _, o := range g {
+			goals = append(goals, o.Goal)
+			if o.Prefix > prefix {
+				prefix = o.Prefix
+			}
+		}
+		bo := &Obligation{Name: fmt.Sprintf("batch-%x-%d", hashStr(g[0].Name), len(g)), Class: "post", Func: g[0].Func, Goal: and(goals...), Prefix: prefix, Expect: "unsat", vc: g[0].vc, probe: true}
+		r := solve(bo, dir, budgetMs, false)
+		if r.Status == "unsat" {
+			for _, o := range g {
+				c := *r
+				c.Solver = fmt.Sprintf("%s [one query for %d post-conditions of this return point]", r.Solver, len(g))
+				c.Ms = r.Ms / int64(len(g))
+				o.Result = &c
+			}
+			return
+		}
+		solveGroup(g[:len(g)/2])
+		solveGroup(g[len(g)/2:])
+	}
 	for i := 0; i < workers; i++ {
 		wg.Add(1)
 		go func() {
 			defer wg.Done()
-			for o := range ch {
-				if o.vc.failed != "" {
-					o.Result = &SolveResult{Status: "error", Output: o.vc.failed}
-					continue
-				}
-				o.Result = solve(o, dir, budgetMs, portfolioAll)
+			for g := range ch {
+				solveGroup(g)
 			}
 		}()
 	}
-	for _, o := range obls {
-		ch <- o
+	for _, g := range items {
+		ch <- g
 	}
 	close(ch)
 	wg.Wait()
